@@ -62,6 +62,7 @@ def _hhea_contract(tag):
             "format": f"{T_}.metricDataFormat == 0 and {T_}.tableVersion == {0x00010000 if hv else 0x00011000}",
         },
         canaries={"advance-max-is-first": f"implies(len({O}) > 0, {T_}.{advMax} == {adv(f'{O}[0]')})"},
+        modifies=[f"TTFont.tbl:{tag}"],  # frame: only the font's slot for this table is written (the table object itself is new)
         locals={"advances": List(INT), "firstSideBearings": List(INT), "secondSideBearings": List(INT), "extents": List(INT), "numLongMetrics": INT},
         # Ghost state, one triple per extremum X in {F: min first bearing, S: min second bearing, E: max extent}: gX = the running
         # extremum over the boxed glyphs seen so far, aX = index (in the glyph order) of a glyph attaining it, kX = position in the
@@ -252,6 +253,8 @@ contract(
         "version": f"{_VT}.majorVersion == 1 and {_VT}.minorVersion == 0",
     },
     canaries={"no-records": f"len({_VT}.VOriginRecords) == 0"},
+    # (VOriginRecords is written on the NEW table only, but inside a loop, whose havoc is per field array: listed for the frame check)
+    modifies=["TTFont.tbl:VORG", "table_VORG.VOriginRecords"],
     models={"ufo2ft.outlineCompiler._getVerticalOrigin": _vo_model, "collections.Counter": _counter},
     loops={
         "for (glyphName, glyph) in self.allGlyphs.items()": Loop(
@@ -415,6 +418,8 @@ def _mtx_contract(tag):
             "count": f"len({MT}) == len({_AGM})",
         },
         raises={"ValueError": f"any({adv} < 0 for g in {_AGM})"},
+        # (metrics is written on the NEW table only, but inside a loop, whose havoc is per field array: listed for the frame check)
+        modifies=[f"TTFont.tbl:{tag}", f"table_{tag}.metrics"],
         canaries={"bearing-zero": f"all({MT}[g][1] == 0 for g in {_AGM})"},
         loops={
             "for (glyphName, glyph) in self.allGlyphs.items()": Loop(
@@ -546,6 +551,7 @@ contract(
     props=["C04"],
     params={"self": Ref("OutlineCompilerO")},
     requires=["'maxp' in self.tables"],
+    modifies=["TTFont.tbl:maxp"],
     ensures={"num-glyphs": f"{_MP}.numGlyphs == len(self.glyphOrder)", "version": f"{_MP}.tableVersion == 0x00005000"},
     canaries={"one-glyph": f"{_MP}.numGlyphs == 1"},
     runtime=Runtime(lambda rng, n: [{"glyphs": rtlib.rand_glyphs(rng)} for _ in range(n)], lambda d: {"self": rtlib.outline_compiler(d, "otf")}, call=lambda fn, a: fn(a["self"])),
@@ -613,7 +619,7 @@ contract(
         f"len({_AGM}) > 0",
         _CACHE_OK,
     ],
-    modifies=["OutlineCompilerT._maxComponentDepths"],
+    modifies=["TTFont.tbl:maxp", "OutlineCompilerT._maxComponentDepths"],
     ensures={
         "num-glyphs": f"{_MP}.numGlyphs == len(self.glyphOrder)",
         "max-component-elements": f"all({_MP}.maxComponentElements >= {_NCOMP} for g in {_AGM})",
@@ -723,6 +729,7 @@ contract(
         "no-characters": f"implies({_HAS_OS2} and len({_UM}) == 0, {_OS2}.fsFirstCharIndex == 65535 and {_OS2}.fsLastCharIndex == 65535)",
     },
     canaries={"one-character": f"{_HAS_OS2} and {_OS2}.fsFirstCharIndex == {_OS2}.fsLastCharIndex"},
+    modifies=["TTFont.tbl:OS/2"],
     locals={"selection": List(INT), "unicodes": List(INT)},
     models={"builtins.min": _minmax_members("min"), "builtins.max": _minmax_members("max")},
 )
@@ -752,7 +759,7 @@ CONTRACTS["ufo2ft.outlineCompiler:BaseOutlineCompiler.setupTable_OS2#c04"].runti
 
 # =====================================================================================================
 # post (TrueType flavour): format 2 with the compiler's glyph order; the extra names are the non-standard names of
-# the glyph order.  `super().setupTable_post()` goes through the `#c04` summary of the base method, which is itself
+# the glyph order.  `super().setupTable_post()` goes through the `#OutlineCompilerT` contract of the base method, which is itself
 # discharged against the base method below (what the override relies on: table made iff requested, format 3 before).
 from fontTools.ttLib.standardGlyphOrder import standardGlyphOrder as _STD  # noqa: E402
 
@@ -768,10 +775,10 @@ _PT = "self.otf['post']"
 _BASE_POST_FIELDS = ["formatType", "italicAngle", "underlinePosition", "underlineThickness", "isFixedPitch", "minMemType42", "maxMemType42", "minMemType1", "maxMemType1"]
 _BASE_POST = contract(
     "ufo2ft.outlineCompiler:BaseOutlineCompiler.setupTable_post",
-    name="c04",
+    name="OutlineCompilerT",  # the variant that `super().setupTable_post()` of an OutlineCompilerT receiver resolves to
     props=["C04"],
     params={"self": Ref("OutlineCompilerT")},
-    modifies=["TTFont.tbl:post"] + [f"table_post.{f}" for f in _BASE_POST_FIELDS],
+    modifies=["TTFont.tbl:post"],  # (the table object is new: its fields are not part of the frame)
     ensures={
         "made-iff-requested": "implies('post' in self.tables, self.otf.get('post') is not None) and implies('post' not in self.tables, self.otf.get('post') == old(self.otf.get('post')))",
         "fresh-table": "implies('post' in self.tables, fresh(self.otf['post']))",
@@ -782,23 +789,15 @@ _BASE_POST = contract(
 CLASSES["OutlineCompilerT"].fields.setdefault("ufo", Ref("Font"))
 
 
-def _super_post_call(ex, st, self, args, kwargs, node):
-    return ex.call_contract(_BASE_POST, [st.env["self"]], {}, st, node)
-
-
-cls("C04_SuperPost", methods={"setupTable_post": _super_post_call}, notes="super() inside OutlineTTFCompiler.setupTable_post: the base method, through its #c04 contract")
-
-
-@trusted("c04.super_post", "super() in OutlineTTFCompiler.setupTable_post resolves to BaseOutlineCompiler (single inheritance): its setupTable_post is called through the contract setupTable_post#c04")
-def _super_post(ex, st, args, kwargs, node):
-    return ex.new_object(st, "C04_SuperPost")
-
-
 contract(
     "ufo2ft.outlineCompiler:OutlineTTFCompiler.setupTable_post",
     props=["C04"],
     params={"self": Ref("OutlineCompilerT")},
-    globals={"super": Val.obj(FuncRef(None, "c04.super_post")), "standardGlyphOrder": list(_STD)},
+    globals={"standardGlyphOrder": list(_STD)},
+    # compile() creates the TTFont and calls every setupTable_* once: there is no 'post' table yet (otherwise the override would
+    # rewrite a table that the base method did not make)
+    requires=["self.otf.get('post') is None"],
+    modifies=["TTFont.tbl:post"],
     ensures={
         "made-iff-requested": "implies('post' in self.tables, self.otf.get('post') is not None) and implies('post' not in self.tables, self.otf.get('post') == old(self.otf.get('post')))",
         "format-2": f"implies('post' in self.tables, {_PT}.formatType == 2.0)",
@@ -835,5 +834,5 @@ def _post_build(d):
     return {"self": comp}
 
 
-for _k in ("ufo2ft.outlineCompiler:OutlineTTFCompiler.setupTable_post", "ufo2ft.outlineCompiler:BaseOutlineCompiler.setupTable_post#c04"):
+for _k in ("ufo2ft.outlineCompiler:OutlineTTFCompiler.setupTable_post", "ufo2ft.outlineCompiler:BaseOutlineCompiler.setupTable_post#OutlineCompilerT"):
     CONTRACTS[_k].runtime = Runtime(_post_cases, _post_build, call=lambda fn, a: fn(a["self"]))
